@@ -460,6 +460,40 @@ print(json.dumps({"violates": bool(bad), "observed": ent, "required": "the compt
 '''
 
 
+REPLAY_TRACE_OVERLOAD = r'''
+import tempfile, importlib.util, os, sys, shutil
+from guppylang_internals.error import GuppyError, GuppyComptimeError
+src = """from guppylang import guppy
+from guppylang.std.quantum import qubit, h, discard
+@guppy
+def b1(q: qubit) -> None:
+    h(q)
+@guppy
+def b2(q: qubit, r: qubit) -> None:
+    h(q)
+@guppy.overload(b1, b2)
+def hh(): ...
+@guppy.comptime
+def over() -> None:
+    q = qubit(); hh(q); hh(q); discard(q)
+@guppy.comptime
+def direct() -> None:
+    q = qubit(); b1(q); b1(q); discard(q)
+"""
+d = tempfile.mkdtemp(dir=os.environ.get("TMPDIR", "/var/tmp")); fn = os.path.join(d, "replay_c21o.py"); open(fn, "w").write(src)
+spec = importlib.util.spec_from_file_location("replay_c21o", fn); m = importlib.util.module_from_spec(spec); sys.modules["replay_c21o"] = m
+spec.loader.exec_module(m)
+res = {}
+for name in ("direct", "over"):
+    try:
+        getattr(m, name).compile_function(); res[name] = "compiled"
+    except (GuppyError, GuppyComptimeError) as ex:
+        res[name] = "rejected: " + str(ex)[:120]
+shutil.rmtree(d, ignore_errors=True)
+print(json.dumps({"violates": res["direct"] != res["over"], "observed": res, "required": "the call through the overload behaves like the direct call of the variant it picks"}))
+'''
+
+
 def trace_call_obligations(chk, tag=""):
     """trace_call (tracing/function.py): a call of a Guppy function from a comptime body.  After the call
     has been compiled, for EVERY borrowed parameter — whatever Python object was passed for it (traced
@@ -566,5 +600,30 @@ def trace_call_obligations(chk, tag=""):
                     chk.prove_paths(f"{tag}trace_call[args={','.join(kinds)};flags={','.join(flags)};update-fails-at={fail_at}]:every-borrowed-argument-object-is-updated-from-the-wire-handed-back(once,in-order,after-the-call)/\\others-untouched/\\failed-update-raises",
                                     e.explore(t), post, func=f"{FN}:trace_call", replay=lambda m_: {"script": REPLAY_TRACE_CALL, "input": {}})
                     n += 1
+    # an OVERLOADED callee knows its signature only once a variant has been picked: the borrowed
+    # parameters are those of the variant the call resolved to (func.ty is a dummy () -> None)
+    for flags in itertools.product(("Inout", "NoFlags", "Owned"), repeat=2):
+        def t_ov(it, flags=flags):
+            func, args = world(it, ("object", "list"), flags, None)
+            OV = it.lookup_global(m, "OverloadedFunctionDef")
+            GC = it.lookup_global(e.module("guppylang_internals.nodes"), "GlobalCall")
+            CD = it.lookup_global(m, "CallableDef")
+            variant = SObj(CD, {"ty": func.fields["ty"], "id": "VARIANT"})
+            ov = SObj(OV, {"ty": SObj(ClassVal("FT", builtin=True), {"inputs": []}), "id": "OVERLOADED"})
+            ov.fields["synthesize_call"] = Builtin("synthesize_call", lambda exprs, node, ctx: (SObj(GC, {"def_id": "VARIANT", "args": list(exprs), "type_args": []}), "RET-TY"))
+            st = e.models["guppylang_internals.tracing.state:get_tracing_state"](it, [], {})
+            st.fields["globals"] = {"VARIANT": variant}
+            r = it.call(it.lookup_global(m, "trace_call"), [ov, *args], {})
+            return r, list(log), args
+
+        def post_ov(p, flags=flags):
+            if p.kind != "return":
+                return z3.BoolVal(False)
+            r, lg, args = p.value
+            ups = [x for x in lg if x[0] == "update"]
+            want = [(j, ("ty", j), ("wire-back", j)) for j, f_ in enumerate(flags) if f_ == "Inout"]
+            return z3.BoolVal(len(ups) == len(want) and all(u[1] is args[j] and u[2] == ty and u[3] == w for u, (j, ty, w) in zip(ups, want)))
+        chk.prove_paths(f"{tag}trace_call[overloaded callee;flags-of-the-chosen-variant={','.join(flags)}]:borrowed-arguments-of-the-chosen-variant-are-updated", e.explore(t_ov), post_ov,
+                        func=f"{FN}:trace_call", replay=lambda m_: {"script": REPLAY_TRACE_OVERLOAD, "input": {}})
     chk.record(f"{tag}trace_call:argument-shapes-explored", n >= 100, str(n), kind="reachability")
     chk.use_engine(e)
